@@ -184,14 +184,10 @@ theorem guard_inert (dry : Nat → Bool) (s s' : Guard.S) (g : Guard.GEv) (a : N
     have hb : b = a := by simpa [gOfReq] using hg
     subst hb
     simp only [Guard.step] at h
-    split at h
-    · cases h
-    · split at h
-      · cases h
-      · split at h
-        · simp only [Except.ok.injEq] at h; subst h; rfl
-        · simp only [Except.ok.injEq] at h; subst h
-          simp [guardCore, hd]
+    repeat' (split at h)
+    all_goals first
+      | (simp only [Except.ok.injEq] at h; subst h; first | rfl | simp [guardCore, hd])
+      | cases h
   | finish b =>
     have hb : b = a := by simpa [gOfReq] using hg
     subst hb
@@ -325,15 +321,10 @@ theorem floor_inert (grant : Nat → Option Int) (s s' : Floor.S) (e : Ev) (a : 
     · simp only [Except.ok.injEq] at h; subst h; exact ⟨rfl, rfl⟩
   | balRead b x asset v =>
     simp only [Floor.step] at h
-    split at h
-    · simp only [Except.ok.injEq] at h; subst h; exact ⟨rfl, rfl⟩
-    · split at h
-      · cases h
-      · split at h
-        · cases h
-        · split at h
-          · cases h
-          · simp only [Except.ok.injEq] at h; subst h; exact ⟨rfl, rfl⟩
+    repeat' (split at h)
+    all_goals first
+      | (simp only [Except.ok.injEq] at h; subst h; exact ⟨rfl, rfl⟩)
+      | cases h
   | arrive _ _ => simp [Floor.step] at h; subst h; exact ⟨rfl, rfl⟩
   | finish _ _ _ _ => simp [Floor.step] at h; subst h; exact ⟨rfl, rfl⟩
   | ikRead _ _ _ => simp [Floor.step] at h; subst h; exact ⟨rfl, rfl⟩
